@@ -27,6 +27,8 @@ type Registry struct {
 	// execution of a failing plan shows the divergence only with some probability, so shrinking and
 	// replay re-execute a plan several times and the fingerprint equality of two replays is not required.
 	UnstableSUT map[string]int // property -> attempts
+	// Weights: share of a check's wall budget per scenario (property -> scenario -> weight, default 1).
+	Weights map[string]map[string]int
 }
 
 type runLine struct {
@@ -168,9 +170,19 @@ func Check(reg *Registry, property, tier, verifDir string) int {
 	var mu sync.Mutex
 	var founds []found
 	var harness []string
+	wsum := 0
+	wOf := func(sname string) int {
+		if v := reg.Weights[property][sname]; v > 0 {
+			return v
+		}
+		return 1
+	}
+	for _, sname := range scen {
+		wsum += wOf(sname)
+	}
 	for si, sname := range scen {
-		share := b.Wall / time.Duration(len(scen))
-		runs := b.Runs / len(scen)
+		share := b.Wall * time.Duration(wOf(sname)) / time.Duration(wsum)
+		runs := b.Runs * wOf(sname) / wsum
 		deadline := time.Now().Add(share)
 		var wg sync.WaitGroup
 		for w := 0; w < W; w++ {
